@@ -33,7 +33,13 @@ def gen_ili_file(rng):
             row.pop(cols[-1], None)
         lines.append('\t'.join(fields))
         expect_[i] = (row.get('status', 'active'), row.get('definition'))
-    return '\n'.join(lines) + '\n', expect_
+    # line ends: LF or CR LF, the last one sometimes missing.  (Lone CR line ends are read by load() like the others — the model
+    # and its theorems cover them — but is_ili() looks at the first line in binary mode, where only LF ends a line, so a
+    # CR-only file whose header is the single column "ili" is not recognised as an ILI file; line-end conventions are not
+    # among the dimensions C19 quantifies over, so such files are not generated: DESIGN.md E.6)
+    eol = rng.choice(['\n', '\n', '\r\n'])
+    final = '' if (rng.random() < 0.25 and lines[-1] != '') else eol
+    return eol.join(lines) + final, expect_
 
 
 def ili_view(tables):
